@@ -100,7 +100,7 @@ def check_case(rules, rng):
     return c
 
 
-def validator_case(rules, rng, missing=False, unknown=False, unparseable=False):
+def validator_case(rules, rng, missing=False, unknown=False, unparseable=False, only_default=()):
     """run generator._validate_policy on a policy file holding ``rules``"""
     from oslo_config import cfg
     from oslo_policy import generator, opts, policy
@@ -109,11 +109,11 @@ def validator_case(rules, rng, missing=False, unknown=False, unparseable=False):
     names = list(texts)
     if unparseable and names:
         texts[names[0]] = rng.choice(['(bar))', 'role:r and', 'not', 'role:r role:r', "'quoted'"])
-    c = {'kind': 'validator', 'rules': [[n, ev.strip(t)] for n, t in rules], 'missing': 1 if missing else 0, 'unknown': 1 if unknown else 0,
+    c = {'kind': 'validator', 'rules': [[n, ev.strip(t)] for n, t in list(rules) + list(only_default)], 'missing': 1 if missing else 0, 'unknown': 1 if unknown else 0,
          'unparseable': 1 if (unparseable and names) else 0, 'rc': -1, 'crashed': 0, '_texts': texts}
     if unparseable and names:
         # the replaced rule no longer has its references
-        c['rules'] = [[n, (ev.strip(t) if n != names[0] else {'k': 'F'})] for n, t in rules]
+        c['rules'] = [[n, (ev.strip(t) if n != names[0] else {'k': 'F'})] for n, t in list(rules) + list(only_default)]
     conf = cfg.CONF
     try:
         path = os.path.join(d, 'policy.yaml')
@@ -131,6 +131,8 @@ def validator_case(rules, rng, missing=False, unknown=False, unparseable=False):
             c['unknown'] = 0
         for n in reg:
             e.register_default(policy.RuleDefault(n, texts[n]))
+        for n, t in only_default:
+            e.register_default(policy.RuleDefault(n, ev.rule_text(t)))
         with mock.patch('oslo_policy.generator._get_enforcer', return_value=e), \
                 mock.patch('builtins.print'):
             c['rc'] = generator._validate_policy('verif')
@@ -219,7 +221,12 @@ def run(ctx):
     for i in range(120 if q else 2500):
         rules = rand_graph(rng, rng.randint(1, 4)) if rng.random() < 0.7 else [(names[j], p[b]) for j, b in enumerate(rng.choice(combos))]
         r = rng.random()
-        cases.append(validator_case(rules, rng, missing=r < 0.1, unknown=0.1 <= r < 0.3, unparseable=0.3 <= r < 0.45))
+        # part of the graph may live in registered defaults that the file does not override
+        od = []
+        if r >= 0.45 and len(rules) >= 2 and rng.random() < 0.5:
+            k = rng.randint(1, len(rules) - 1)
+            rules, od = rules[:k], rules[k:]
+        cases.append(validator_case(rules, rng, missing=r < 0.1, unknown=0.1 <= r < 0.3, unparseable=0.3 <= r < 0.45, only_default=od))
     rejected, st = tlc.judge_cases('Conf_Validate', [ec.strip_case(c) for c in cases], chunk=20000, timeout=3000)
     ctx.traces += len(cases)
     for i in rejected:
